@@ -11,6 +11,7 @@ import (
 	"reflect"
 	"runtime"
 	"strings"
+	"time"
 
 	"github.com/200sc/bebop"
 )
@@ -80,6 +81,7 @@ type Event struct {
 	Overask  bool    `json:"overask"`
 	Written  []int   `json:"written,omitempty"`
 	Idx      *int    `json:"idx,omitempty"`
+	Outs     [][]int `json:"outs,omitempty"`
 	Ends     []int   `json:"ends,omitempty"`
 	Req      *int    `json:"req,omitempty"`
 	Got      *int    `json:"got,omitempty"`
@@ -333,6 +335,36 @@ func opCodec(pi *pkgInfo, c *Cmd) {
 		emit(e)
 	}
 	m++
+	// values the abstract domain does not reach: times that are not a multiple of 100ns. How they are rounded is
+	// not the property's business, but every encoder must round them the same way (C02).
+	if hasDate(pi.Defs, Type{K: "r", N: c.Root}, 0) {
+		rec2 := buildRecord(pi, c.Root, c.V, c.Cid%2 == 0)
+		if shiftDates(reflect.ValueOf(rec2).Elem(), 37) > 0 {
+			begin(c.Cid, m, &Event{Ev: "encx"})
+			e := &Event{Ev: "encx", Cid: c.Cid, M: m}
+			var o1, o3 []byte
+			var sz int
+			o2 := []byte{}
+			e.Res, e.Msg, e.Big, e.Alloc = call(len(ref), func() error {
+				sz = rec2.Size()
+				o1 = rec2.MarshalBebop()
+				if sz >= 0 && sz < 1<<26 {
+					o2 = bytes.Repeat([]byte{0xA5}, sz)
+					rec2.MarshalBebopTo(o2)
+				}
+				w := &recWriter{}
+				if err := rec2.EncodeBebop(w); err != nil {
+					return err
+				}
+				o3 = w.buf.Bytes()
+				return nil
+			})
+			e.N = ip(sz)
+			e.Outs = [][]int{ints(o1), ints(o2), ints(o3)}
+			emit(e)
+			m++
+		}
+	}
 	// distinct inputs
 	type input struct {
 		srcs []string
@@ -696,4 +728,74 @@ func Main() {
 			return
 		}
 	}
+}
+
+// hasDate: does a value of type t contain a date somewhere?
+func hasDate(s Schema, t Type, depth int) bool {
+	if depth > 12 {
+		return false
+	}
+	switch t.K {
+	case "p":
+		return t.P == "date"
+	case "a":
+		return hasDate(s, *t.E, depth+1)
+	case "m":
+		return t.Key == "date" || hasDate(s, *t.V, depth+1)
+	case "r":
+		d := s.Def(t.N)
+		if d == nil {
+			return false
+		}
+		for _, f := range d.Fields {
+			if hasDate(s, f.T, depth+1) {
+				return true
+			}
+		}
+		for _, b := range d.Branches {
+			if hasDate(s, Type{K: "r", N: b.N}, depth+1) {
+				return true
+			}
+		}
+	}
+	return false
+}
+
+// shiftDates adds ns nanoseconds to every non-zero time reachable from v (not map keys); returns how many it changed.
+func shiftDates(v reflect.Value, ns int) int {
+	v = readable(v)
+	n := 0
+	switch v.Kind() {
+	case reflect.Struct:
+		if v.Type() == timeType {
+			sv := settable(v)
+			t := sv.Interface().(time.Time)
+			if !t.IsZero() {
+				sv.Set(reflect.ValueOf(t.Add(time.Duration(ns))))
+				return 1
+			}
+			return 0
+		}
+		for i := 0; i < v.NumField(); i++ {
+			n += shiftDates(v.Field(i), ns)
+		}
+	case reflect.Ptr:
+		if !v.IsNil() {
+			n += shiftDates(v.Elem(), ns)
+		}
+	case reflect.Slice:
+		for i := 0; i < v.Len(); i++ {
+			n += shiftDates(v.Index(i), ns)
+		}
+	case reflect.Map:
+		for _, k := range v.MapKeys() {
+			e := reflect.New(v.Type().Elem()).Elem()
+			e.Set(v.MapIndex(k))
+			if c := shiftDates(e, ns); c > 0 {
+				v.SetMapIndex(k, e)
+				n += c
+			}
+		}
+	}
+	return n
 }
